@@ -355,6 +355,7 @@ func main() {
 			os.Exit(2)
 		}
 		var in []byte
+		vk.ReplayRan()
 		if _, err := fmt.Sscanf(v.Trace[0], "%x", &in); err == nil && !strings.Contains(v.Trace[0], "{") {
 			name := v.Scenario
 			dec := codec.NewStatic(keys, types)
